@@ -56,9 +56,11 @@ class Contract:
         if not overlay_only:
             self._read(path, None)
         if OVERLAY[0] and path.endswith('.vc'):
-            opath = path[:-3] + '+' + OVERLAY[0] + '.vc'
-            if os.path.exists(opath):
-                self._read(opath, os.path.relpath(opath, VERIF))
+            # (several overlays may be named: `overlay ids acy`; they are merged in that order)
+            for oname in OVERLAY[0].split('+'):
+                opath = path[:-3] + '+' + oname + '.vc'
+                if os.path.exists(opath):
+                    self._read(opath, os.path.relpath(opath, VERIF))
 
     GROUP_KW = ('requires', 'ensures', 'decreases', 'invariant', 'invariant_except_break', 'ensures_on_break')
 
@@ -1463,7 +1465,7 @@ def build(unit, repo_root, diff=False, canary=False, extra_stubs=()):
     directives = [l.strip().split() for l in open(upath).read().split('\n') if l.strip() and not l.strip().startswith('#')]
     proved_here = set((d[1], d[2]) for d in directives if d[0] in ('prove', 'prove?') and len(d) >= 3)
     heap_fns = [x for d in directives if d[0] == 'heap-functions' for x in d[1:]]
-    OVERLAY[0] = next((d[1] for d in directives if d[0] == 'overlay'), None)
+    OVERLAY[0] = next(('+'.join(d[1:]) for d in directives if d[0] == 'overlay'), None)
     info['overlay'] = OVERLAY[0]
     info['heap_functions'] = heap_fns
     unit_lines = open(upath).read().split('\n') + ['stub %s %s' % (f, n) for f, n in extra_stubs]
